@@ -6,10 +6,10 @@ namespace Lexpr
 namespace Parse
 
 /-- `SliceRead::parse_symbol_bytes` and `IoRead::parse_symbol_bytes` stop at the same bytes. -/
-theorem symTerm_eq (b : UInt8) : symTermSlice b = symTermIo b := rfl
+theorem symTermSlice_eq_io (b : UInt8) : symTermSlice b = symTermIo b := rfl
 
 theorem symTerm_mode (m₁ m₂ : Mode) (b : UInt8) : symTerm m₁ b = symTerm m₂ b := by
-  cases m₁ <;> cases m₂ <;> simp only [symTerm, symTerm_eq]
+  cases m₁ <;> cases m₂ <;> simp only [symTerm, symTermSlice_eq_io]
 
 theorem symLen_mode (m₁ m₂ : Mode) (l : List UInt8) : symLen m₁ l = symLen m₂ l := by
   induction l with
